@@ -231,6 +231,38 @@ def check_form_case(case, st):
         st.violation('target-form:block-count:%s' % tag, d)
 
 
+# ---- long runs: many slow targets on few workers (each silent target costs one timeout; the run lasts far longer than any single audit)
+def slow_cases():
+    out = []
+    for n_silent, extra in ((70, ()), (69, ('CLEAN',)), (40, ('TERR', 'REFUSED'))):
+        for threads in (1, 2):
+            for fmt in ('text', 'json'):
+                out.append(('slow', n_silent, extra, threads, fmt))
+    return out
+
+
+def check_slow_case(case, st):
+    _k, n_silent, extra, threads, fmt = case
+    archs = list(extra[:1]) + ['SILENT'] * n_silent + list(extra[1:])
+    res, s = MT.run_multi(archs, threads, fmt, (), ('connect',))
+    st.execution(res.world, outcome=('slow', res.status, fmt, threads), root=case, nontrivial=case)
+    d = {'targets': '%d silent + %s' % (n_silent, list(extra)), 'threads': threads, 'fmt': fmt, 'status': res.status, 'virtual_seconds': round(res.clock, 1)}
+    if res.hang or res.exc:
+        st.violation('long-run:hang-or-escaped-exception', dict(d, hang=res.hang, exc=res.exc, tail=(res.stdout + res.stderr)[-200:]))
+        return
+    if res.status != 1:
+        st.violation('long-run:exit-status-%s-expected-1' % res.status, dict(d, tail=(res.stdout + res.stderr)[-200:]))
+    if fmt == 'json':
+        try:
+            doc = json.loads(res.stdout)
+            if not isinstance(doc, list) or len(doc) != len(archs):
+                st.violation('long-run:json-array-length', dict(d, got=len(doc) if isinstance(doc, list) else None))
+        except ValueError:
+            st.violation('long-run:json-not-one-document', dict(d, stdout_tail=res.stdout[-200:]))
+    elif len(MT.split_text(res.stdout)) != len(archs):
+        st.violation('long-run:block-count', dict(d, got=len(MT.split_text(res.stdout))))
+
+
 # ---- several services of ONE host (same name, different ports), healthy and failing ones mixed: each entry is answered by its own port
 def samehost_cases():
     out = []
@@ -409,7 +441,9 @@ def check_rate_case(case, st):
 
 def work(chunk, st):
     for case in chunk:
-        if case[0] == 'rate':
+        if case[0] == 'slow':
+            check_slow_case(case, st)
+        elif case[0] == 'rate':
             check_rate_case(case, st)
         elif case[0] == 'samehost':
             check_samehost_case(case, st)
@@ -464,6 +498,7 @@ def cases(tier):
     out += ascii_cases()
     out += rate_cases()
     out += samehost_cases()
+    out += slow_cases()
     return out
 
 
@@ -492,7 +527,7 @@ def run(tier, seed):
         PID, tier, seed, st, t0,
         rule='target lists of length 2 (quick; plus one triple per failure) / 2-3 (thorough) mixing healthy archetypes %s with every failure '
              'archetype %s in every position x threads x {text,-j}; DFS over gate schedules (preemption bound quick 1 / thorough 2); plus '
-             'targets-file syntax failures (out-of-range port, blank/whitespace lines); the same target listed two or three times; every failing archetype written as [v6]:port, [v6], v6, v4:port, v4, name:port next to a healthy target; lists with the connection-rate check switched on around a target it has nothing to measure on; a healthy and a failing service of one host name on two ports; non-trivial = distinct (list, threads, format, completion order)' % (HEALTHY, FAILING),
+             'targets-file syntax failures (out-of-range port, blank/whitespace lines); the same target listed two or three times; every failing archetype written as [v6]:port, [v6], v6, v4:port, v4, name:port next to a healthy target; lists with the connection-rate check switched on around a target it has nothing to measure on; a healthy and a failing service of one host name on two ports; runs of 40-70 silent targets on 1-2 workers (virtual hours); non-trivial = distinct (list, threads, format, completion order)' % (HEALTHY, FAILING),
         assumptions=['thread switches only at virtual I/O gates', 'per-target statuses come from fresh single-target runs in the same environment'],
         exhaustive=True, traces_validated=validated, extra={'cases': len(cs)})
 
